@@ -14,15 +14,21 @@ variable {σ : Type} (ρ : Oracle σ)
 structure WalkCore (R : Fw σ → Fw σ → Prop) : Prop where
   refl : ∀ s, R s s
   trans : ∀ {s t u}, R s t → R t u → R s u
-  transition : ∀ (j : Nat) (ev : Event) (s : Fw σ), R s (transition ρ FUEL j ev s).1
+  /-- for the events a call delivers from outside a transition (CounterZero is only ever delivered
+      from within `update_counter`) -/
+  transition : ∀ (j : Nat) (ev : Event) (s : Fw σ), ev ≠ .counterZero → R s (transition ρ FUEL j ev s).1
   decrement : ∀ (j : Nat) (s : Fw σ), notEnded s j = true → R s (decrementLimit ρ j s)
   fault : ∀ (s : Fw σ) (f : Fault), R s (s.withFault f)
   signal : ∀ (s : Fw σ) (p : Option SignalTarget), R s { s with signalPending := p }
 
-structure Walk (R : Fw σ → Fw σ → Prop) : Prop extends WalkCore ρ R where
+/-- a walker over whole events (accounting included) -/
+structure WalkEv (R : Fw σ → Fw σ → Prop) : Prop extends WalkCore ρ R where
   setG : ∀ (s : Fw σ) (g' : Globals), R s { s with g := g' }
   acct : ∀ (s : Fw σ) (j : Nat) (f : Runtime → Runtime),
     (∀ r, f r = { r with acct := (f r).acct }) → R s (s.modRt j f)
+
+/-- a walker over whole calls -/
+structure Walk (R : Fw σ → Fw σ → Prop) : Prop extends WalkEv ρ R where
   callStart : ∀ (s : Fw σ) (t : Int), R s (s.callStart t)
 
 namespace WalkCore
@@ -35,15 +41,15 @@ theorem foldl {α : Type} (f : Fw σ → α → Fw σ) (hf : ∀ s a, R s (f s a
   | nil => exact W.refl s
   | cons a l ih => exact W.trans (hf s a) (ih (f s a))
 
-theorem transitionAll (ev : Event) (s : Fw σ) : R s (transitionAll ρ ev s) := by
+theorem transitionAll (ev : Event) (hev : ev ≠ .counterZero) (s : Fw σ) : R s (transitionAll ρ ev s) := by
   unfold Mb.transitionAll
-  exact W.foldl _ (fun s mi => W.transition mi ev s) _ _
+  exact W.foldl _ (fun s mi => W.transition mi ev s hev) _ _
 
-theorem transDec (mi : Nat) (ev : Event) (s : Fw σ) (c : Fw σ × Bool → Bool)
+theorem transDec (mi : Nat) (ev : Event) (hev : ev ≠ .counterZero) (s : Fw σ) (c : Fw σ × Bool → Bool)
     (hc : ∀ p, c p = true → notEnded p.1 mi = true) :
     R s (if c (Mb.transition ρ FUEL mi ev s) = true then decrementLimit ρ mi (Mb.transition ρ FUEL mi ev s).1
          else (Mb.transition ρ FUEL mi ev s).1) := by
-  have h := W.transition mi ev s
+  have h := W.transition mi ev s hev
   split
   · next hcond => exact W.trans h (W.decrement mi _ (hc _ hcond))
   · exact h
@@ -54,7 +60,7 @@ theorem signalFold (excluded : Option Nat) (s : Fw σ) (n : Nat) :
   refine W.foldl _ (fun s mi => ?_) _ _
   split
   · exact W.refl _
-  · exact W.transition _ _ _
+  · exact W.transition _ _ _ (by decide)
 
 theorem signalRound (s : Fw σ) : R s (signalRound ρ s) := by
   unfold Mb.signalRound
@@ -82,12 +88,12 @@ theorem signalRound (s : Fw σ) : R s (signalRound ρ s) := by
       refine W.trans h3 ?_
       cases hs2 : s2.signalPending with
       | none => exact W.refl _
-      | some _ => exact W.trans (W.signal s2 none) (W.transition _ _ _)
+      | some _ => exact W.trans (W.signal s2 none) (W.transition _ _ _ (by decide))
 
 end WalkCore
 
-namespace Walk
-variable {ρ} {R : Fw σ → Fw σ → Prop} (W : Walk ρ R)
+namespace WalkEv
+variable {ρ} {R : Fw σ → Fw σ → Prop} (W : WalkEv ρ R)
 include W
 
 theorem blockingEndAcct (s : Fw σ) (mi blocked : Nat) :
@@ -114,16 +120,16 @@ theorem blockingEndAcct (s : Fw σ) (mi blocked : Nat) :
 theorem processEvent (e : TEvent) (s : Fw σ) : R s (processEvent ρ e s) := by
   unfold Mb.processEvent
   cases e with
-  | normalRecv => exact W.toWalkCore.transitionAll _ s
-  | paddingRecv => exact W.toWalkCore.transitionAll _ s
-  | tunnelRecv => exact W.toWalkCore.transitionAll _ s
-  | tunnelSent => exact W.toWalkCore.transitionAll _ s
+  | normalRecv => exact W.toWalkCore.transitionAll _ (by decide) s
+  | paddingRecv => exact W.toWalkCore.transitionAll _ (by decide) s
+  | tunnelRecv => exact W.toWalkCore.transitionAll _ (by decide) s
+  | tunnelSent => exact W.toWalkCore.transitionAll _ (by decide) s
   | normalSent =>
     simp only []
     refine W.trans (W.setG s { s.g with normalSent := s.g.normalSent + 1 }) (W.toWalkCore.foldl _ (fun s mi => ?_) _ _)
     exact W.trans (W.acct s mi
       (fun r => { r with acct := { r.acct with normalSent := r.acct.normalSent + 1 } }) (fun _ => rfl))
-      (W.transition mi _ _)
+      (W.transition mi _ _ (by decide))
   | paddingSent mi =>
     simp only []
     refine W.trans (W.setG s { s.g with paddingSent := s.g.paddingSent + 1 }) ?_
@@ -131,7 +137,7 @@ theorem processEvent (e : TEvent) (s : Fw σ) : R s (processEvent ρ e s) := by
     · exact W.refl _
     · refine W.trans (W.acct _ mi
         (fun r => { r with acct := { r.acct with paddingSent := r.acct.paddingSent + 1 } }) (fun _ => rfl)) ?_
-      exact W.toWalkCore.transDec mi .paddingSent _ (fun p => !p.2 && notEnded p.1 mi)
+      exact W.toWalkCore.transDec mi .paddingSent (by decide) _ (fun p => !p.2 && notEnded p.1 mi)
         (fun p hp => by simp only [Bool.and_eq_true] at hp; exact hp.2)
   | blockingBegin m =>
     simp only []
@@ -141,7 +147,7 @@ theorem processEvent (e : TEvent) (s : Fw σ) : R s (processEvent ρ e s) := by
       · exact W.setG s _
       · exact W.refl s
     refine W.trans h1 (W.toWalkCore.foldl _ (fun s mi => ?_) _ _)
-    exact W.toWalkCore.transDec mi .blockingBegin _ (fun p => !p.2 && notEnded p.1 mi && mi == m)
+    exact W.toWalkCore.transDec mi .blockingBegin (by decide) _ (fun p => !p.2 && notEnded p.1 mi && mi == m)
       (fun p hp => by simp only [Bool.and_eq_true] at hp; exact hp.1.2)
   | blockingEnd =>
     simp only []
@@ -159,18 +165,26 @@ theorem processEvent (e : TEvent) (s : Fw σ) : R s (processEvent ρ e s) := by
         · exact W.refl _
       · exact W.refl s
     refine W.trans h1 (W.toWalkCore.foldl _ (fun s mi => ?_) _ _)
-    exact W.trans (W.blockingEndAcct s mi _) (W.transition mi _ _)
+    exact W.trans (W.blockingEndAcct s mi _) (W.transition mi _ _ (by decide))
   | timerBegin mi =>
     simp only []
     split
     · exact W.refl _
-    · exact W.toWalkCore.transDec mi .timerBegin _ (fun p => !p.2 && notEnded p.1 mi)
+    · exact W.toWalkCore.transDec mi .timerBegin (by decide) _ (fun p => !p.2 && notEnded p.1 mi)
         (fun p hp => by simp only [Bool.and_eq_true] at hp; exact hp.2)
   | timerEnd mi =>
     simp only []
     split
     · exact W.refl _
-    · exact W.transition mi _ _
+    · exact W.transition mi _ _ (by decide)
+
+end WalkEv
+
+namespace Walk
+variable {ρ} {R : Fw σ → Fw σ → Prop} (W : Walk ρ R)
+include W
+
+theorem processEvent (e : TEvent) (s : Fw σ) : R s (Mb.processEvent ρ e s) := W.toWalkEv.processEvent e s
 
 theorem triggerEvents (es : List TEvent) (t : Int) (s : Fw σ) : R s (triggerEvents ρ es t s) := by
   unfold Mb.triggerEvents
@@ -187,7 +201,7 @@ end Walk
 theorem walkRun : Walk ρ (Run (σ := σ)) where
   refl := Run.refl
   trans := Run.trans
-  transition j ev s := Run.ofReach (transition_reach ρ FUEL j ev s)
+  transition j ev s _ := Run.ofReach (transition_reach ρ FUEL j ev s)
   decrement j s _ := Run.ofReach (decrementLimit_reach ρ j s)
   setG s g' := Run.single (Prim.setG s g')
   acct s j f hf := modRt_acct_run s j f hf
